@@ -151,7 +151,10 @@ func genCapRe(r *rand.Rand, depth int, alphabet string, names *[]string) *ReAST 
 // genReA: genRe, one time in four anchored at the beginning, the end or both (^ and $ without the m flag).
 func genReA(r *rand.Rand, depth int, alphabet string) *ReAST {
 	re := genRe(r, depth, alphabet)
-	switch r.Intn(8) {
+	switch r.Intn(9) {
+	case 8:
+		// ^x|y$ : the anchors belong to the alternatives, not to the whole expression
+		return &ReAST{T: "alt", A: &ReAST{T: "cat", A: &ReAST{T: "bol"}, B: re}, B: &ReAST{T: "cat", A: genRe(r, depth-1, alphabet), B: &ReAST{T: "eol"}}}
 	case 0:
 		return &ReAST{T: "cat", A: &ReAST{T: "bol"}, B: re}
 	case 1:
